@@ -6,7 +6,7 @@
    in /repo changes Gen/C02.v and breaks the lemma (=> the check reports a
    broken tie and searches for a failing input). *)
 From Coq Require Import String Ascii.
-From Sdns Require Import Common.Base Common.GoList Gen.C02 C02.Model.
+From Sdns Require Import Common.Base Common.GoList Gen.C02 C02.Model C02.ModelNsec3.
 Open Scope N_scope.
 
 Definition src (l : list string) : list (list N) := map bytes_of_string l.
@@ -70,11 +70,12 @@ Lemma gen_nsec3_covers_src :
                           "return hashOwner > 0 || hashNext < 0"]%string.
 Proof. vm_compute. reflexivity. Qed.
 
-(* nsec3Safe *)
-Lemma gen_nsec3_safe_src :
-  nsec3_safe_src = src ["return n != nil &&"; "n.Hash == dns.SHA1 &&";
-                        "n.Iterations <= maxNSEC3Iterations &&"; "(n.Flags == 0 || n.Flags == 1)"]%string.
-Proof. vm_compute. reflexivity. Qed.
+(* nsec3Safe (translated with the miekg NSEC3 record as a value; the nil test is the caller's): the
+   model's nsec3_safe on the record's algorithm, iteration count and flags *)
+Lemma gen_nsec3_safe (g : T_NSEC3) (r : nsec3) :
+  T_NSEC3_Hash g = r_alg r -> T_NSEC3_Iterations g = r_iter r -> T_NSEC3_Flags g = r_flags r ->
+  go_nsec3Safe g = nsec3_safe r.
+Proof. intros H1 H2 H3. unfold go_nsec3Safe, nsec3_safe. rewrite H1, H2, H3. reflexivity. Qed.
 
 (* Opt-Out is bit 0 of the NSEC3 flags on every route *)
 Lemma gen_optout_masks :
@@ -228,4 +229,60 @@ Example decode_escapes :
   decode_from 9 [92; 46; 97; 92; 48; 52; 54; 92; 92]%N 0 = [46; 97; 46; 92]%N /\       (* \.a\046\\ *)
   decode_from 4 [92; 50; 53; 54]%N 0 = [0]%N.                                        (* \256 wraps, as in the library *)
 Proof. split; vm_compute; reflexivity. Qed.
+
+(* ---- dnsname.equalFold (per-label equality of CompareSuffix / Sub / CanonicalCompare's callers), translated
+   by srcgen stage 3: label_eqb on the folded labels.  Fuel: more than the label's length. *)
+Definition eqf_result (x : go_ctl bool * (list N * list N * Z)) : option bool :=
+  match x with (GoRet r, _) => Some r | (GoOof, _) => None | (GoNext, _) => Some true end.
+Definition fold_eq_at (a b : list N) (j : nat) : bool := (fold_byte (nth j a 0%N) =? fold_byte (nth j b 0%N))%N.
+
+Lemma eqf_loop fuel a b : forall lf i, -1 <= i -> i + 1 < Z.of_nat lf ->
+  eqf_result (go_equalFold_loop1 fuel lf a b i) = Some (forallb (fold_eq_at a b) (seq 0 (Z.to_nat (i + 1)))).
+Proof.
+  induction lf as [|lf IH]; intros i Hi Hlf; [lia|].
+  cbn [go_equalFold_loop1]. destruct (0 <=? i) eqn:E0.
+  2: { apply Z.leb_gt in E0. replace (Z.to_nat (i + 1)) with O by lia. reflexivity. }
+  apply Z.leb_le in E0. cbv zeta.
+  rewrite !go_idx_nth by lia.
+  replace (Z.to_nat (i + 1)) with (S (Z.to_nat i)) by lia. rewrite seq_S, forallb_app. cbn [forallb Nat.add].
+  rewrite andb_true_r. unfold fold_eq_at at 2. rewrite <- (go_fold (nth (Z.to_nat i) a 0%N)), <- (go_fold (nth (Z.to_nat i) b 0%N)).
+  assert (Hrec : eqf_result (go_equalFold_loop1 fuel lf a b (i - 1)) = Some (forallb (fold_eq_at a b) (seq 0 (Z.to_nat i)))).
+  { rewrite IH by lia. do 3 f_equal. lia. }
+  destruct ((65 <=? nth (Z.to_nat i) a 0)%N && (nth (Z.to_nat i) a 0 <=? 90)%N);
+  destruct ((65 <=? nth (Z.to_nat i) b 0)%N && (nth (Z.to_nat i) b 0 <=? 90)%N);
+  match goal with |- context [negb (?x =? ?y)%N] => destruct (x =? y)%N end; cbn [negb];
+  first [ rewrite andb_true_r; exact Hrec | rewrite andb_false_r; reflexivity ].
+Qed.
+
+Lemma fold_eq_all (a b : list N) : forall pa pb, length pa = length pb -> length a = length b ->
+  forallb (fold_eq_at (pa ++ a) (pb ++ b)) (seq (length pa) (length a)) = list_eqb N.eqb (fold_label a) (fold_label b).
+Proof.
+  revert b. induction a as [|x a IH]; intros b pa pb Hp Hl; destruct b as [|y b]; try discriminate; [reflexivity|].
+  cbn [length seq forallb fold_label map list_eqb]. f_equal.
+  - unfold fold_eq_at. rewrite (app_nth2 pa) by lia. rewrite (app_nth2 pb) by lia.
+    rewrite Hp, !Nat.sub_diag. reflexivity.
+  - replace (pa ++ x :: a) with ((pa ++ [x]) ++ a) by (rewrite <- app_assoc; reflexivity).
+    replace (pb ++ y :: b) with ((pb ++ [y]) ++ b) by (rewrite <- app_assoc; reflexivity).
+    replace (S (length pa)) with (length (pa ++ [x])) by (rewrite app_length; cbn; lia).
+    apply IH; [rewrite !app_length; cbn; lia | cbn in Hl; lia].
+Qed.
+
+(* dnsname.equalFold (the per-label equality of CompareSuffix / Sub): label_eqb on the folded labels *)
+Theorem gen_equal_fold fuel a b : (length a < fuel)%nat ->
+  go_equalFold fuel a b = Some (label_eqb (fold_label a) (fold_label b)).
+Proof.
+  intros Hf. unfold go_equalFold, label_eqb.
+  destruct (go_len a =? go_len b) eqn:El; cbn [negb].
+  - apply Z.eqb_eq in El. unfold go_len in El. assert (Hl : length a = length b) by lia.
+    pose proof (eqf_loop fuel a b fuel (go_len a - 1)) as H. unfold go_len in H.
+    rewrite <- (fold_eq_all a b [] [] eq_refl Hl). cbn [app length].
+    replace (Z.to_nat (Z.of_nat (length a) - 1 + 1)) with (length a) in H by lia.
+    rewrite <- H by lia. unfold go_len, eqf_result.
+    destruct (go_equalFold_loop1 fuel fuel a b (Z.of_nat (length a) - 1)) as [c [[a' b'] i']]; destruct c; reflexivity.
+  - apply Z.eqb_neq in El. unfold go_len in El. f_equal. symmetry.
+    assert (Hn : length (fold_label a) <> length (fold_label b)) by (unfold fold_label; rewrite !map_length; lia).
+    revert Hn. generalize (fold_label a) (fold_label b). clear.
+    induction l as [|x l IH]; intros [|y m] Hn; cbn in *; try reflexivity; [congruence|].
+    rewrite IH by lia. apply andb_false_r.
+Qed.
 End CompareDecodedFold.
